@@ -64,8 +64,8 @@ struct Snapshot {
 struct St {
     db: Db,
     now: i64,
-    phase: [Phase; 5],
-    snap: [Snapshot; 5],
+    phase: [Phase; 6],
+    snap: [Snapshot; 6],
 }
 
 struct Slot {
@@ -80,6 +80,8 @@ struct Slot {
     /// minimum output of a deposit whose reachability depends on the published prices
     /// (0 = none): such an action can be cancelled at one price and would succeed at another
     price_dependent_min: u64,
+    /// the long-side amount is swapped along [market 2, market 1] (out of and back into the deposit market's long token)
+    long_path: bool,
 }
 
 struct Life {
@@ -113,6 +115,9 @@ fn market_view(w: &W, db: &Db, m: &MarketKeys) -> Vec<u128> {
 impl Life {
     fn markets(&self) -> [&MarketKeys; 2] {
         [&self.w.m1, &self.w.m2]
+    }
+    fn path_of(&self, s: &Slot) -> Vec<MarketKeys> {
+        if s.long_path { vec![self.w.m2.clone(), self.w.m1.clone()] } else { vec![] }
     }
     fn key_of(&self, s: &Slot, who: Who) -> Pubkey {
         match who {
@@ -205,7 +210,7 @@ impl Machine for Life {
                 let m = self.markets()[sl.market];
                 let before = self.holdings(&s.db, sl);
                 let r = if sl.is_deposit {
-                    w.create_deposit(&mut n.db, m, sl.owner, sl.nonce, sl.amounts.0, sl.amounts.1, if sl.unreachable_min { u64::MAX } else { sl.price_dependent_min }, sl.owner)
+                    W::with_long_path(self.path_of(sl), || w.create_deposit(&mut n.db, m, sl.owner, sl.nonce, sl.amounts.0, sl.amounts.1, if sl.unreachable_min { u64::MAX } else { sl.price_dependent_min }, sl.owner))
                 } else {
                     let amount = before.2 / 2;
                     w.create_withdrawal(&mut n.db, m, sl.owner, sl.nonce, amount, if sl.unreachable_min { u64::MAX } else { 0 }, 0, sl.owner)
@@ -219,7 +224,7 @@ impl Machine for Life {
                 let sl = &self.slots[i];
                 let m = self.markets()[sl.market];
                 let by = self.key_of(sl, who);
-                Some(if sl.is_deposit { w.execute_deposit(&mut n.db, m, sl.owner, sl.nonce, by, false) } else { w.execute_withdrawal(&mut n.db, m, sl.owner, sl.nonce, by, false) })
+                Some(if sl.is_deposit { W::with_long_path(self.path_of(sl), || w.execute_deposit(&mut n.db, m, sl.owner, sl.nonce, by, false)) } else { w.execute_withdrawal(&mut n.db, m, sl.owner, sl.nonce, by, false) })
             }
             Act::Close(i, who) => {
                 let sl = &self.slots[i];
@@ -416,19 +421,22 @@ pub fn run(cli: &Cli) -> Report {
     assert!(mint_a != mint_b && mint_a > 0 && mint_b > 0, "price-dependent minimum needs two different mint amounts ({mint_a}, {mint_b})");
     let price_dependent_min = mint_a.min(mint_b) + (mint_a.abs_diff(mint_b) + 1) / 2;
     let slots = vec![
-        Slot { is_deposit: true, market: 0, owner: w.user, nonce: [1; 32], amounts: (1_000_000, 12_000_000), unreachable_min: false, price_dependent_min: 0 },
-        Slot { is_deposit: true, market: 0, owner: w.user2, nonce: [5; 32], amounts: (0, 12_000_000), unreachable_min: false, price_dependent_min },
-        Slot { is_deposit: false, market: 0, owner: w.user, nonce: [3; 32], amounts: (0, 0), unreachable_min: false, price_dependent_min: 0 },
-        Slot { is_deposit: true, market: 1, owner: w.user2, nonce: [2; 32], amounts: (500_000, 0), unreachable_min: true, price_dependent_min: 0 },
-        Slot { is_deposit: false, market: 0, owner: w.user2, nonce: [4; 32], amounts: (0, 0), unreachable_min: true, price_dependent_min: 0 },
+        Slot { is_deposit: true, market: 0, owner: w.user, nonce: [1; 32], amounts: (1_000_000, 12_000_000), unreachable_min: false, price_dependent_min: 0, long_path: false },
+        Slot { is_deposit: true, market: 0, owner: w.user2, nonce: [5; 32], amounts: (0, 12_000_000), unreachable_min: false, price_dependent_min, long_path: false },
+        Slot { is_deposit: false, market: 0, owner: w.user, nonce: [3; 32], amounts: (0, 0), unreachable_min: false, price_dependent_min: 0, long_path: false },
+        Slot { is_deposit: true, market: 1, owner: w.user2, nonce: [2; 32], amounts: (500_000, 0), unreachable_min: true, price_dependent_min: 0, long_path: false },
+        Slot { is_deposit: false, market: 0, owner: w.user2, nonce: [4; 32], amounts: (0, 0), unreachable_min: true, price_dependent_min: 0, long_path: false },
+        // the long side travels out of and back into the deposit market's long token: [market 2, market 1] (the last hop is the
+        // deposit market itself)
+        Slot { is_deposit: true, market: 0, owner: w.user2, nonce: [6; 32], amounts: (700_000, 0), unreachable_min: false, price_dependent_min: 0, long_path: true },
     ];
-    let n_slots = if th { 5 } else { 3 };
+    let used: Vec<usize> = if th { (0..6).collect() } else if props == P22 { vec![0, 1, 2, 5] } else { vec![0, 1, 2] };
     let mut acts = vec![];
-    for i in 0..n_slots {
+    for i in used {
         acts.extend([Act::Create(i), Act::Exec(i, Who::Keeper), Act::Exec(i, Who::Stranger), Act::Close(i, Who::Owner), Act::Close(i, Who::Keeper), Act::Close(i, Who::Stranger)]);
     }
     acts.extend([Act::Adv(30), Act::Adv(100), Act::Refresh, Act::Reprice]);
-    let mut starts = vec![St { db: db.clone(), now: 1_000, phase: [Phase::Absent; 5], snap: [Snapshot::default(); 5] }];
+    let mut starts = vec![St { db: db.clone(), now: 1_000, phase: [Phase::Absent; 6], snap: [Snapshot::default(); 6] }];
     if props == P22 {
         // fee claims and keeper transfers, and start states that position activity would leave behind
         // (collateral sums, accrued fees, funding already paid out), fabricated through a real RevertibleMarket
@@ -481,7 +489,7 @@ pub fn run(cli: &Cli) -> Report {
                 let amount = token_amount(&d, &v) + fee as u64;
                 d.set(v, world::token_acc(token, w.store, amount));
             }
-            starts.push(St { db: d, now: 1_000, phase: [Phase::Absent; 5], snap: [Snapshot::default(); 5] });
+            starts.push(St { db: d, now: 1_000, phase: [Phase::Absent; 6], snap: [Snapshot::default(); 6] });
         }
     }
     let life = Life { w, acts, slots, props };
